@@ -383,6 +383,50 @@ theorem C03.tables_exact_partial (fw : Fw) (o : ColOrder) (steps : List Step) (o
     obtain ⟨q, hq, hown'⟩ := htab s hs t hst c hc
     exact hyg q (List.mem_flatMap.mpr ⟨s, hs, hq⟩) f hf (clash_of_common_col hown' hown)
 
+/-! ## D'. every planned feature lands in exactly one feature set (= one step, one result table) -/
+
+/-- For every set of planned features of a group - any mix of declared data types, untyped features and options, in any
+iteration order - the feature sets built by `group_features_by_compute_framework_and_options` are a partition: each
+feature is a member of exactly one feature set (the members, with multiplicity, are a permutation of the input). -/
+theorem C03.grouping_partition (fs : List TFeat) : (members (groupByType fs)).Perm fs := by
+  unfold groupByType
+  simp only
+  refine (members_foldl_join _ _).trans ?_
+  refine ((members_foldl_insert _ []).append_right _).trans ?_
+  simp only [members, List.flatMap_nil, List.nil_append]
+  exact List.filter_append_perm _ fs
+
+/-- … and the feature sets respect the split: all members share the set's options, typed members its data type. -/
+theorem C03.grouping_respects_keys (fs : List TFeat) :
+    ∀ b ∈ groupByType fs, ∀ f ∈ b.2, f.opt = b.1.1 ∧ (f.dtype.isSome → f.dtype = b.1.2) := by
+  unfold groupByType
+  simp only
+  have h1 : ∀ (l : List TFeat) (bs : List Bucket), (∀ b ∈ bs, KeyOK b) →
+      ∀ b ∈ l.foldl (fun bs f => insertBucket bs (f.opt, f.dtype) f) bs, KeyOK b := by
+    intro l
+    induction l with
+    | nil => intro bs h; simpa using h
+    | cons f l ih => intro bs h; simp only [List.foldl_cons]; exact ih _ (keyOK_insertBucket bs f h)
+  have h2 : ∀ (l : List TFeat) (bs : List Bucket), (∀ f ∈ l, f.dtype = none) → (∀ b ∈ bs, KeyOK b) →
+      ∀ b ∈ l.foldl joinFirst bs, KeyOK b := by
+    intro l
+    induction l with
+    | nil => intro bs _ h; simpa using h
+    | cons f l ih =>
+      intro bs hl h
+      simp only [List.foldl_cons]
+      exact ih _ (fun x hx => hl x (by simp [hx])) (keyOK_joinFirst bs f (hl f (by simp)) h)
+  intro b hb
+  exact h2 _ _ (by intro f hf; have := (List.mem_filter.mp hf).2; cases hd : f.dtype <;> simp_all) (h1 _ [] (by simp)) b hb
+
+/-- The early exit matters: if an untyped feature joined EVERY typed feature set with equal options, a request mixing two
+declared types and an untyped feature would put that feature into two feature sets (two steps, two tables). -/
+theorem C03.grouping_first_match_needed_witness :
+    let fs : List TFeat := [{ name := [97], opt := 0, dtype := some 1 }, { name := [98], opt := 0, dtype := some 2 },
+                            { name := [99], opt := 0, dtype := none }]
+    (members (groupByTypeAll fs)).length = 4 ∧ (members (groupByType fs)).length = 3 := by
+  decide
+
 /-! ## E. accepted `column_ordering` values (table regenerated from the code on every run) -/
 
 /-- the model's guard accepts exactly the strings the code accepts, on every probe the extractor tried, both in
